@@ -16,6 +16,8 @@ CONSTANTS
   ArbAlpha = {48}
   ArbLen = 0
   Modes = {"tok"}
+  LongReps = {}
+  LongLens = {}
   W1 = 8
   W2 = 8
 INVARIANT NoForgeryV1
